@@ -138,6 +138,10 @@ pub fn use_name(n: &ParsedName<&[u8]>) -> Value {
         assert_eq!(ob, l.as_slice(), "owned label: other octets");
         assert_eq!(format!("{}", owned), format!("{}", l), "owned label displays differently");
         assert_eq!(l.is_wildcard(), l.as_slice() == b"*");
+        let mut lower = l.to_owned();
+        lower.make_canonical();
+        assert!(lower.as_label() == l, "canonical label is another label");
+        assert_eq!(lower.as_slice(), &l.as_slice().to_ascii_lowercase()[..]);
     }
     assert_eq!(via_into, lv, "IntoIterator yields other labels");
     let back: ParsedName<Vec<u8>> = ParsedName::from(flat.clone());
@@ -293,10 +297,25 @@ const WALK_CAP: usize = 70_000;
 fn same_walk(direct: Vec<Value>, others: [Vec<Value>; 2]) -> Value {
     for (i, o) in others.iter().enumerate() {
         if *o != direct {
-            return json!({"routes_differ": i + 1, "direct": direct, "other": o});
+            // the deviating route's walk is the observation (it is compared
+            // with the specification like any other); the note says which
+            route_note(json!({"typed_walk_route": i + 1, "direct": direct, "other": o}));
+            return Value::Array(o.clone());
         }
     }
     Value::Array(direct)
+}
+
+thread_local! {
+    static ROUTE_NOTES: std::cell::RefCell<Vec<Value>> = const { std::cell::RefCell::new(Vec::new()) };
+}
+/// Two routes to the same thing disagreed: kept for the report; the
+/// deviating value itself goes into the projection.
+pub fn route_note(v: Value) {
+    ROUTE_NOTES.with(|n| n.borrow_mut().push(v));
+}
+pub fn take_route_notes() -> Vec<Value> {
+    ROUTE_NOTES.with(|n| std::mem::take(&mut *n.borrow_mut()))
 }
 
 pub fn walk_lim<'a, O, D>(sec: RecordSection<'a, O>, in_only: bool) -> Value
@@ -404,6 +423,16 @@ pub fn rec_at(m: &[u8], pos: usize) -> Value {
             Ok(h) => match p.advance(usize::from(h.rdlen())) {
                 Ok(()) => {
                     let _ = format!("{:?} {}", h, h.owner());
+                    let fixed = &m[p.pos() - usize::from(h.rdlen()) - 10..p.pos() - usize::from(h.rdlen())];
+                    let flat: domain::base::Name<Vec<u8>> = h.owner().to_name();
+                    let mut plain: Vec<u8> = vec![];
+                    h.compose(&mut plain).unwrap();
+                    assert!(plain[..plain.len() - 10] == *flat.as_slice() && plain[plain.len() - 10..] == *fixed, "record header composed again differs");
+                    let mut canon: Vec<u8> = vec![];
+                    h.compose_canonical(&mut canon).unwrap();
+                    assert!(canon[..canon.len() - 10] == flat.as_slice().to_ascii_lowercase()[..] && canon[canon.len() - 10..] == *fixed);
+                    let rec = h.clone().into_record(());
+                    assert!(rec.owner() == h.owner() && rec.class() == h.class() && rec.ttl() == h.ttl());
                     hdr_json(p.pos(), h.rtype().to_int(), h.class().to_int(), h.ttl().as_secs(), h.rdlen())
                 }
                 Err(_) => fail.clone(),
@@ -425,7 +454,12 @@ pub fn rec_at(m: &[u8], pos: usize) -> Value {
             Err(_) => fail.clone(),
         },
     };
-    let parse = if r1 == r2 && r1 == r4 { r1 } else { json!({"routes_differ": [r1, r2, r4]}) };
+    let parse = if r1 == r2 && r1 == r4 {
+        r1
+    } else {
+        route_note(json!({"rec_at": pos, "routes": [r1, r2, r4]}));
+        if r1 != r2 { r2 } else { r4 }
+    };
     let skip = match at(pos) {
         None => fail.clone(),
         Some(mut p) => match ParsedRecord::skip(&mut p) {
@@ -529,6 +563,12 @@ pub fn exercise_record(r: &AnyRecord<'_>) {
     let _ = d.compose_rdata(&mut out);
     let mut out2: Vec<u8> = vec![];
     let _ = d.compose_canonical_rdata(&mut out2);
+    let mut out3: Vec<u8> = vec![];
+    if d.compose_canonical_len_rdata(&mut out3).is_ok() && out3.len() >= 2 {
+        assert_eq!(usize::from(u16::from_be_bytes([out3[0], out3[1]])), out3.len() - 2, "length prefix of the canonical RDATA");
+        assert_eq!(&out3[2..], &out2[..], "canonical RDATA differs with and without length prefix");
+    }
+    let _ = format!("{} {}", r, d);
     convert_record(r);
     match d {
         AllRecordData::Nsec(x) => {
@@ -678,7 +718,10 @@ pub fn convert_record(r: &AnyRecord<'_>) {
     // rebuilt from the variant's own type
     let rebuilt: Option<AllRecordData<&[u8], ParsedName<&[u8]>>> = match d.clone() {
         AllRecordData::A(x) => Some(x.into()),
-        AllRecordData::Cname(x) => Some(x.into()),
+        AllRecordData::Cname(x) => {
+            assert!(Cname::from(*x.cname()) == x, "Cname::from(name) differs");
+            Some(x.into())
+        }
         AllRecordData::Ns(x) => Some(x.into()),
         AllRecordData::Mx(x) => Some(x.into()),
         AllRecordData::Soa(x) => Some(x.into()),
@@ -820,6 +863,13 @@ pub fn exercise_options(o: &domain::base::opt::Opt<&[u8]>) {
             }
             _ => {}
         }
+    }
+    for x in o.iter::<UnknownOptData<_>>().flatten() {
+        use octseq::octets::OctetsFrom;
+        let owned: UnknownOptData<Vec<u8>> = UnknownOptData::try_octets_from(x.clone()).expect("owned option");
+        let a: &[u8] = x.as_ref();
+        let b: &&[u8] = x.as_ref();
+        assert!(owned.as_slice() == x.as_slice() && a == x.as_slice() && *b == a && owned.code() == x.code());
     }
     let _ = o.iter::<ClientSubnet>().map(|x| x.is_ok()).count();
     let _ = o.iter::<Cookie>().map(|x| x.is_ok()).count();
@@ -964,7 +1014,11 @@ fn header_routes(m: &[u8], msg: &Message<&[u8]>) -> Value {
     let cd = cnt(c);
     for (i, (rb, rc)) in routes.iter().enumerate() {
         if *rb != direct || *rc != cd {
-            return json!({"routes_differ": i + 1, "direct": [direct, cd], "other": [rb, rc]});
+            route_note(json!({"header_route": i + 1, "direct": [direct, cd], "other": [rb, rc]}));
+            if *rb != direct {
+                return rb.clone();
+            }
+            return json!(["counts differ", rc]);
         }
     }
     assert_eq!(cd, json!([u16::from_be_bytes([m[4], m[5]]), u16::from_be_bytes([m[6], m[7]]),
@@ -1037,6 +1091,7 @@ pub fn old_projection(m: &[u8], starts: &[usize], slw: &mut SliceProbe, predicte
         Ok(msg) => msg,
         Err(_) => return json!({"short": true}),
     };
+    let _ = take_route_notes();
     let mut o = Map::new();
     o.insert("short".into(), json!(false));
     o.insert(
@@ -1143,7 +1198,8 @@ pub fn old_projection(m: &[u8], starts: &[usize], slw: &mut SliceProbe, predicte
                 let others = opt_routes(m, &msg, &opt);
                 for (i, ov) in others.iter().enumerate() {
                     if *ov != v {
-                        return json!({"k": "opt", "routes_differ": i + 1, "v": v, "other": ov});
+                        route_note(json!({"opt_route": i + 1, "direct": v, "other": ov}));
+                        return json!({"k": "opt", "v": ov});
                     }
                 }
                 json!({"k": "opt", "v": v})
@@ -1237,6 +1293,10 @@ pub fn old_projection(m: &[u8], starts: &[usize], slw: &mut SliceProbe, predicte
         json!(h.finish())
     });
     o.insert("tot".into(), tot);
+    let notes = take_route_notes();
+    if !notes.is_empty() {
+        o.insert("route_notes".into(), Value::Array(notes));
+    }
     Value::Object(o)
 }
 
